@@ -777,6 +777,7 @@ pub fn run_c14(ec: &EnumCase) -> RunReport {
                         kind: kind.to_string(),
                         index: k,
                         sticky,
+                        frac_pm: None,
                     });
                 }
             }
